@@ -260,6 +260,14 @@ class Body:
             self._blocks = [Block(i, b) for i, b in enumerate(self.d['blocks'])]
         return self._blocks
 
+    def promoted_body(self, i):
+        ps = self.d.get('promoted') or []
+        if i is None or i >= len(ps):
+            return None
+        d = dict(ps[i])
+        d.update({'path': '%s::promoted[%d]' % (self.path, i), 'kind': 'promoted', 'arg_count': 0, 'span': self.d['span'], 'upvars': []})
+        return Body(d, self.crate)
+
     def lname(self, l):
         n = self.locals[l].get('n')
         return '%s(_%d)' % (n, l) if n else '_%d' % l
